@@ -20,9 +20,9 @@ EXTENDS Integers, Sequences, TLC, Json, IOUtils
 
 Tr == ndJsonDeserialize(IOEnv.TRACE)
 
-VARIABLES l, canon, counts, key, seen
+VARIABLES l, canon, counts, key, seen, once
 
-vars == <<l, canon, counts, key, seen>>
+vars == <<l, canon, counts, key, seen, once>>
 
 Ev == Tr[l]
 IsEv(e) == l <= Len(Tr) /\ Ev.ev = e /\ l' = l + 1
@@ -33,17 +33,21 @@ Init ==
   /\ counts = [x \in {} |-> 0]     \* <<key, class>> -> number of items of a completed run
   /\ key = ""
   /\ seen = [x \in {} |-> 0]       \* <<class, observer>> -> items observed in the current run
+  /\ once = {}                     \* <<class, observer, index>> observed in the current run
 
 (* start of a run *)
 Run ==
   /\ IsEv("Run")
   /\ key' = Ev.key
   /\ seen' = [x \in {} |-> 0]
+  /\ once' = {}
   /\ UNCHANGED <<canon, counts>>
 
 (* one observation *)
 Obs ==
   /\ IsEv("Obs")
+  /\ <<Ev.class, Ev.who, Ev.k>> \notin once          \* an observer sees each item of a run once (no duplicates standing in for lost items)
+  /\ once' = once \cup {<<Ev.class, Ev.who, Ev.k>>}
   /\ LET id == <<key, Ev.class, Ev.k>>  so == <<Ev.class, Ev.who>> IN
        /\ IF id \in DOMAIN canon
             THEN canon[id] = Ev.dig /\ UNCHANGED canon          \* must agree with the canonical value
@@ -60,7 +64,7 @@ RunEnd ==
   /\ counts' = [c \in DOMAIN counts \cup {<<key, so[1]>> : so \in DOMAIN seen} |->
                   IF c \in DOMAIN counts THEN counts[c]
                   ELSE seen[CHOOSE so \in DOMAIN seen : <<key, so[1]>> = c]]
-  /\ UNCHANGED <<canon, key, seen>>
+  /\ UNCHANGED <<canon, key, seen, once>>
 
 Next == Run \/ Obs \/ RunEnd
 Spec == Init /\ [][Next]_vars
